@@ -118,7 +118,27 @@ func c01Body(b *mon.B, idx int, v *rfc8907.Value, mustAccept bool) {
 	} else {
 		b.Count("decodings_identical_to_reference", 1)
 	}
+	// the same bytes decoded into a value that already holds an earlier packet of this kind (a
+	// receiver that keeps one value per connection): the result is what THESE bytes carry
+	re := c01Reused[v.Layout]
+	if re == nil {
+		re = newLib(v.Layout)
+		c01Reused[v.Layout] = re
+	}
+	if err := tq.Unmarshal(ref, re); err != nil {
+		c01Reused[v.Layout] = nil
+		return
+	}
+	if f := diffValues(fromLib(re), v); f != "" {
+		b.Violate(idx, fmt.Sprintf("C01/decode-into-used-value-mismatch/%s/%s", v.Layout, f),
+			fmt.Sprintf("%s: decoding RFC bytes into a value that held an earlier packet gives field %s different from what the bytes carry", v.Layout, f),
+			map[string]interface{}{"value": describe(v), "ref": hexs(ref), "decoded": describe(fromLib(re))})
+		c01Reused[v.Layout] = nil
+	}
 }
+
+// c01Reused holds one long-lived value per layout (see above).
+var c01Reused = map[string]tq.EncoderDecoder{}
 
 // c01Held is the previous packet encoding, kept across the next MarshalBinary call:
 // bytes already handed to a caller must not change when another packet is encoded.
